@@ -846,3 +846,99 @@ func rr(r *ssa.Return) []ssa.Value {
 	}
 	return out
 }
+
+// ---------------------------------------------------------------------------------------------
+// following values through single call sites (a goroutine closure turned into a named function, a
+// helper that receives what its only caller made)
+
+// soleCallSite: the only module call site (call, go or defer) of a named function, or nil.
+func soleCallSite(p *Prog, fn *ssa.Function) ssa.CallInstruction {
+	cs := p.Callers(fn)
+	if len(cs) != 1 {
+		return nil
+	}
+	return cs[0]
+}
+
+// resolveArg is resolve() extended through parameters of functions that have a single call site.
+func resolveArg(p *Prog, v ssa.Value) ssa.Value {
+	for i := 0; i < 6; i++ {
+		v = resolve(v)
+		prm, ok := v.(*ssa.Parameter)
+		if !ok {
+			return v
+		}
+		fn := prm.Parent()
+		if fn.Parent() != nil {
+			return v
+		}
+		site := soleCallSite(p, fn)
+		if site == nil {
+			return v
+		}
+		idx := inputIndexParam(fn, prm)
+		args := site.Common().Args
+		if site.Common().IsInvoke() {
+			args = append([]ssa.Value{site.Common().Value}, args...)
+		}
+		if idx < 0 || idx >= len(args) {
+			return v
+		}
+		v = args[idx]
+	}
+	return v
+}
+
+func inputIndexParam(fn *ssa.Function, prm *ssa.Parameter) int {
+	for i, q := range fn.Params {
+		if q == prm {
+			return i
+		}
+	}
+	return -1
+}
+
+// goStartOf: the single `go` statement that starts fn (a closure started where it is made, or a named
+// function whose only call site is a go statement); nil otherwise.
+func goStartOf(p *Prog, fn *ssa.Function) *ssa.Go {
+	if mk := makeClosureOf(fn); mk != nil {
+		var g *ssa.Go
+		n := 0
+		for _, r := range *mk.Referrers() {
+			switch x := r.(type) {
+			case *ssa.Go:
+				if x.Common().Value == ssa.Value(mk) {
+					g = x
+					n++
+				}
+			case *ssa.DebugRef:
+			default:
+				return nil
+			}
+		}
+		if n == 1 {
+			return g
+		}
+		return nil
+	}
+	if site := soleCallSite(p, fn); site != nil {
+		if g, ok := site.(*ssa.Go); ok {
+			return g
+		}
+	}
+	return nil
+}
+
+// deferredIn: fn is a closure that its parent defers (defer func(){…}()); returns the parent.
+func deferredIn(fn *ssa.Function) *ssa.Function {
+	mk := makeClosureOf(fn)
+	if mk == nil {
+		return nil
+	}
+	for _, r := range *mk.Referrers() {
+		if d, ok := r.(*ssa.Defer); ok && d.Common().Value == ssa.Value(mk) {
+			return fn.Parent()
+		}
+	}
+	return nil
+}
